@@ -199,7 +199,7 @@ def floors(tier):
     return {"distinct_nontrivial": 300, "re:ExceptIf(@.*)?\\.enter": 500, "re:Alternative(@.*)?\\.enter": 500,
             "cls:shape:ref_in_ref": 20, "cls:shape:ref_in_alt": 20, "cls:shape:alt_in_ref": 20, "cls:shape:alt_chain": 20,
             "cls:overridden": 200, "cls:alt_fired": 200, "cls:caching_off": 50, "cls:conclusions_spelled_positionally": 100, "cls:preceded_by_an_evaluation_in_which_user_code_raised": 60, "cls:earlier_rule_concluded_a_subclass_for_the_same_objects": 100, "cls:bare_call_as_branch_condition": 150, "cls:or_of_operands_with_different_variables": 100,
-            "cls:nested_query_as_whole_branch_condition": 60, "cls:function_predicate_in_branch_condition": 150, "cls:for_all_as_branch_condition": 100, "condition_kind_pairs_instantiated": 1600, "cls:scale:280_to_600_items": 80, "cls:conclusion_field_is_a_nested_query": 100, "cls:matches_are_parent_element_pairs": 300, "cls:parent_with_several_elements": 250, "cls:conclusion_value_is_a_domain_variable": 60,
+            "cls:nested_query_as_whole_branch_condition": 60, "cls:function_predicate_in_branch_condition": 150, "cls:for_all_as_branch_condition": 100, "condition_kind_pairs_instantiated": 1300, "cls:scale:280_to_600_items": 80, "cls:conclusion_field_is_a_nested_query": 100, "cls:matches_are_parent_element_pairs": 300, "cls:parent_with_several_elements": 250, "cls:conclusion_value_is_a_domain_variable": 60,
             "cls:style:sibling_alternatives": 200, "cls:join_in_tree": 300, "cls:tree_extended_after_it_was_evaluated": 150, "cls:join_item_with_two_links": 200, "cls:alternative_declared_before_refinement": 200, "re:cls:longest_alternative_chain=[3-9]": 50}
 
 
